@@ -19,6 +19,7 @@ EXPLANATION = (
     "the poll result itself), leaving `index` untouched; (ZERO) zero-length world returns Ready(None) without polling; (EXT) "
     "StreamExt::chain builds (self, other).")
 EXPLANATION += (' (CTOR) the entry point stores the operands in order: input K of the chain is operand K.')
+EXPLANATION += (' (SEL, helpers) iter_pin_mut* / get_pin_mut* are the standard slice / Vec accessors of their argument re-pinned element-wise - no hand-written pointer walk, no own Iterator impl in utils::pin. (EXT, surface) no inherent method named `chain` on a stream type of the crate, and no body moves a field out of a by-value combinator.')
 ASSUMPTIONS = [
     "Iterator::nth(i) on a slice iterator yields the element at position i (library model)",
 ]
